@@ -16,6 +16,19 @@ Correspondence (model: `lean/PercevalModel/Model/C13.lean`, driver `lean/Driver/
   `session_refines_stateless`, `session_history_independent`); a reply that is wrong in the session but
   right on a fresh object is reported as `answer-depends-on-history`.
 
+* *state-vector path*: `SimulatorFactory.build(c).evolve(bs)` — every output state's amplitude (against the exact
+  permanent of `upol · prep` divided by √(∏s!∏t!)) and its P:H / P:V annotations per mode (`polSV`), also after a
+  `probs` on the same object and with heralds / post-selection set on the layer (`selectSV`, heralded modes kept);
+  evolve queries inside sessions are compared on amplitudes too;
+* `convert_polarized_state(bs, use_symbolic, inverse)`: spatial input and matrix against `modeBlockX` (numeric and
+  sympy branch; the symbolic branch accepts a second polarisation only if exactly orthogonal); `inverse=True` checked
+  directly to be the inverse of the plain matrix;
+* *selection*: heralds / post-selection / `min_detected_photons_filter` / detectors on a polarised `Processor`
+  (`with_polarized_input` + `probs`) and on `SimulatorFactory.build(c)` + `set_selection` + `probs_svd`, against the
+  model's pipeline `polProbs` (= the C04 conditioning specification of the polarised distribution, theorem
+  `polarised_selection_spec`) — results and both performances; direct oracle: the documented conditioning applied in
+  numpy to the doubled-mode distribution.
+
 The native `BasicState` keeps annotation angles in single precision, so the Jones angles are read
 *back* from the constructed state; their cos/sin (float64, external functions of the model) are sent
 to Lean as exact dyadic rationals.  Leaf matrices of ordinary components come from each leaf's own
@@ -513,6 +526,7 @@ def observe_probs(case):
 # (heralds / post-selection / photon filter / detectors) on polarised simulators and processors
 # ------------------------------------------------------------------------------------------------
 PS_OPS = ["==", "<", ">", "<=", ">="]
+SV_DROP = 1.5e-6       # min_complex_component = 1e-6 on each of (re, im)
 
 
 def gen_ps(rng, m, depth):
@@ -573,6 +587,10 @@ def gen_sel(rng, m, modes, path, with_filter=True):
     sel = {"heralds": heralds, "ps": ps, "psj": psj if psj is not None else True,
            "keep": False if path == "processor" else rng.random() < 0.5}
     if not with_filter:
+        # evolve: only keep_heralds(True) (the simulators' default) is modelled — with False the native
+        # BasicState.remove_modes does not keep the annotations in place and amplitudes of states differing only in a
+        # dropped photon's polarisation are added
+        sel["keep"] = True
         return sel
     r = rng.random()
     if r < 0.2:
@@ -589,7 +607,8 @@ def gen_sel(rng, m, modes, path, with_filter=True):
         v = n + 1
     sel["v"] = v
     dets = None
-    if path == "processor" and rng.random() < 0.3:
+    if path == "processor" and rng.random() < 0.3 and len(heralds) < m:   # (a detector on a processor whose modes
+        # are all heralded changes the circuit size: Experiment.add, not this property)
         dets = {str(i): rng.choice(["thr", "ppnr", "pnr"]) for i in range(m) if rng.random() < 0.6}
     sel["dets"] = dets or None
     return sel
@@ -828,6 +847,8 @@ def compare_sv(real, expected):
         if k not in expected and abs(a) > 1e-9:
             return f"output state {list(k)} (photons (P:H, P:V) per mode) is not an output of the model"
     for k, z in expected.items():
+        if k not in got and abs(z) <= SV_DROP:
+            continue          # the native StateVector drops components below global_params['min_complex_component']
         if not cclose(got.get(k, 0j), z):
             return f"amplitude of {list(k)} = {got.get(k, 0j)!r}, exact {z!r}"
     return None
@@ -848,14 +869,12 @@ def judge_evolve(chk, case, obs, rep):
         if sel:
             R = float(Fraction(rep["sel"]["R"]))
             if R <= 1e-13:
+                chk.branch("evolve-nothing-retained")
                 expected, shared = {}, set()
             else:
                 expected, shared = model_sv(rep["sel"]["sv"], R)
-            if shared:
-                # keep_heralds(False): the code ADDS the amplitudes of output states that differ only in the polarisation
-                # of a dropped heralded photon; the model keeps them apart (documented residue) — not compared
-                chk.branch("evolve-dropped-herald-coherent-sum")
-                skip = True
+            if shared or not sel["keep"]:
+                skip = True       # keep_heralds(False) is outside the model (see gen_sel)
         else:
             expected, shared = model_sv(rep["sv"])
         if not skip:
@@ -995,7 +1014,7 @@ def judge_select(chk, case, obs, rep):
     bad = [t for t in set(dist) | set(res) if abs(dist.get(t, 0.0) - res.get(t, 0.0)) > 1e-6]
     perf_bad = abs(obs["perf"][0] - phys) > 1e-6 or (logic is not None and abs(obs["perf"][1] - logic) > 1e-6)
     if bad or perf_bad:
-        if corner and dist and not res:
+        if corner and not res and (dist or obs["perf"][0] > 1e-6):
             return ("violation", "herald-photon-filter-ignored",
                     f"{what}: {n} photons enter, min_detected_photons_filter({v_eff}) counts the non-heralded modes only and "
                     f"the heralds expect {h} more, so no output state qualifies (physical performance 0); the polarisation "
@@ -1372,7 +1391,10 @@ def count_case(chk, case):
         sel = case.get("sel")
         if sel:
             chk.branch("evolve-selection")
-            chk.branch("evolve-keep-heralds" if sel["keep"] else "evolve-drop-heralds")
+            if sel["heralds"]:
+                chk.branch("evolve-heralds")
+            if sel["ps"]:
+                chk.branch("evolve-ps")
     else:
         sel = case["sel"]
         chk.branch("select-" + case["path"])
@@ -1746,7 +1768,11 @@ def judge_session(chk, case, obs=None, rep=None, count=False):
         kind, sig, what, _ = res
         # is it the history?  the same (circuit, input) on a fresh object
         try:
-            fresh = judge(chk, dict(pc, path=case["path"]))
+            if st["op"] == "evolve":
+                fresh = judge(chk, {"kind": "evolve", "tree": pc["tree"], "modes": pc["modes"],
+                                    "backend": case["backend"]})
+            else:
+                fresh = judge(chk, dict(pc, path=case["path"]))
         except Exception:
             fresh = res
         if fresh is None:
@@ -2068,6 +2094,15 @@ def finish_batch(chk, cases, ctx, reps):
             report(chk, case, res)
 
 
+def silence():
+    try:
+        from perceval.utils.logging import get_logger, channel, level
+        for ch in (channel.user, channel.general, channel.resources):
+            get_logger().set_level(level.off, ch)
+    except Exception:  # noqa: BLE001
+        pass
+
+
 def load_corpus():
     out = []
     for p in sorted(glob.glob(os.path.join(core.VERIF, "corpus", "C13", "*.json"))):
@@ -2080,6 +2115,7 @@ def load_corpus():
 def run(chk: core.Check):
     import perceval as pcvl
     pcvl.random_seed(chk.seed)
+    silence()
     chk.rule = ("random circuits mixing WP/HWP/QWP/PR/PBS/polarised Unitary with BS/PS/PERM/Unitary/Barrier (nested "
                 "sub-circuits, merged or not, polarised or purely ordinary) × compute_unitary(use_polarization="
                 "None|True|False), and × polarised inputs (labels, elliptical rational Jones vectors, one or two "
@@ -2088,7 +2124,12 @@ def run(chk: core.Check):
                 "long-lived simulator / Processor object serving 2-6 queries (probs, probs_svd, evolve; all-H after "
                 "prepared, repeated, vacuum, inadmissible inputs) with set_circuit / add / Parameter.set_value in "
                 "between, every reply compared with the model's state machine and the stateless specification; "
-                "compute_unitary re-asked on the same circuit object; distinct = distinct "
+                "compute_unitary re-asked on the same circuit object; plus evolve (amplitudes and P:H/P:V annotations of "
+                "every output state, with / without heralds and post-selection on the layer, after a probs on the same "
+                "object), convert_polarized_state(use_symbolic, inverse) incl. inadmissible inputs, and selection "
+                "(0-2 heralds, post-selection expressions of depth <= 2, min_detected_photons_filter in {0, n-h, auto, "
+                "random, v+h>n corner, n+1}, threshold/PPNR/PNR detectors) on polarised Processors and simulators; "
+                "distinct = distinct "
                 "(path, circuit shape, input pattern / step pattern); non-trivial = circuit has a polarising and an "
                 "ordinary mode-mixing component and (for simulations) a non-H/V polarisation")
     chk.assumptions = [
@@ -2097,6 +2138,14 @@ def run(chk: core.Check):
         "float64 and sent to the model as exact dyadic rationals (trigonometric functions are external to the model)",
         "the inner spatial simulation is specified by the Fock-space permanent formula (C02)",
         "1/sqrt in the re-orthonormalisation is evaluated by the driver with one Newton step (error < 1e-24)",
+        "evolve: the model carries perm(W[t|s]) and the squared normalisation exactly; the harness takes the square root; "
+        "an output state absent from the native StateVector is accepted when the exact |amplitude| <= 1.5e-6 "
+        "(global_params['min_complex_component'] = 1e-6 drops such components)",
+        "evolve with heralds: only keep_heralds(True) is modelled and compared (with False the native "
+        "BasicState.remove_modes does not keep annotations in place and amplitudes differing only in a dropped photon's "
+        "polarisation are added)",
+        "selection: when the physical performance is 0 the logical performance is not compared (unspecified)",
+        "symbolic conversion: sympy expressions are evaluated to complex numbers with sympy.N before comparison",
     ]
     chk.required_branches = [
         "wp", "hwp", "qwp", "pr", "pbs", "pol-unitary", "plain-leaf", "nested-plain-subcircuit",
@@ -2111,7 +2160,7 @@ def run(chk: core.Check):
         "session-factory-probs", "session-factory-svd", "session-factory-evolve", "session-processor",
         # extension: state-vector path, conversion flags, selection
         "evolve-stateless", "evolve-slos", "evolve-naive", "evolve-two-polarisations", "evolve-selection",
-        "evolve-keep-heralds", "evolve-drop-heralds", "evolve-after-probs", "evolve-bunched-annotations",
+        "evolve-heralds", "evolve-ps", "evolve-after-probs", "evolve-nothing-retained", "evolve-bunched-annotations",
         "session-evolve-amplitudes",
         "convert-numeric", "convert-symbolic", "convert-inverse", "convert-inverse-two", "convert-symbolic-inverse",
         "convert-symbolic-rejected", "convert-rejected",
@@ -2140,6 +2189,7 @@ def run(chk: core.Check):
 
 def replay(chk, data):
     chk.lean = core.LeanDriver("C13")
+    silence()
     chk.rule = "replay of one stored case"
     check_labels(chk)
     rp = data["replay"]
